@@ -12,6 +12,11 @@ for f in sorted(glob.glob('/verif/seeded/*/meta.json')):
     first = 'missed; check strengthened' if c.get('first_run') else 'detected'
     if not c.get('detected'):
         first = 'NOT DETECTED'
+        other = c.get('detected_by_other_property')
+        if other:
+            first += ' by this property\'s check; caught by ' + other.split(' (')[0]
+        elif c.get('why_missed'):
+            first += ' (see meta.json: why_missed)'
     needs = m.get('needs_to_manifest', '').replace('|', '/').replace('\n', ' ')
     if len(needs) > 230: needs = needs[:227] + '...'
     print("| %s | %s | %s | %s | %s |" % (m['id'], ', '.join(files), needs, ', '.join(tests) or by[:60], first))
